@@ -258,6 +258,11 @@ func runC05(c *core.Ctx) {
 			for k := 0; k < nf; k++ {
 				res := run.Exec(c.HR, args, run.ExecOpts{Dir: srv.Dir})
 				c.Eval(1)
+				if res.TimedOut || strings.Contains(res.Serr, "verif: exec:") {
+					// the watchdog (30 s, then 120 s) expired or the process could not be started: not an outcome of the program
+					c.Inconclusive("fresh-processes", "watchdog expired on "+joinArgs(args))
+					continue
+				}
 				c.Count("fresh_process_runs", 1)
 				outcomes[key(res)]++
 			}
